@@ -20,7 +20,7 @@ Ltac inv_ok :=
 Fixpoint D (e : fxR) : Prop :=
   match e with
   | FSum _ _ | FInfConv _ _ | FRightVec _ _ | FQuadS _ _ _ => False
-  | FLp _ | FIndBall _ | FL2Sq | FConst _ | FIndZero _ | FHuber _ => True
+  | FLp _ | FIndBall _ | FL2Sq | FConst _ | FIndZero _ | FHuber _ | FPair _ _ => True
   | FLeft _ f | FScalarSum f _ | FTransl f _ | FQuadPert f _ _ _ | FBreg f | FDefConj f => D f
   | FRight s f => (s < 0 -> forall w f', @cconj R _ w f = Ok f' -> is_linear f' = false) /\ D f
   | FSep2 _ f g => D f /\ D g
@@ -63,10 +63,11 @@ Fixpoint lenwf (n : nat) (e : fxR) : Prop :=
   | FQuadPert f _ u _ => length u = n /\ lenwf n f
   | FSep2 k f g => (k <= n)%nat /\ lenwf k f /\ lenwf (n - k) g
   | FQuadS _ b _ => match b with Some b' => length b' = n | None => True end
+  | FPair _ P => pair_len n P
   | _ => True
   end.
 Lemma wf_lenwf e : forall n, wf n e -> lenwf n e.
-Proof. fxind e; intros n Hwf; cbn [wf lenwf] in *; auto; intuition eauto. Qed.
+Proof. fxind e; intros n Hwf; cbn [wf lenwf] in *; auto; try (destruct Hwf as (Hl & _); exact Hl); intuition eauto. Qed.
 Lemma lenwf_mkLeft n s g : lenwf n (mkLeft s g) <-> lenwf n g.
 Proof. destruct g; reflexivity. Qed.
 Lemma lenwf_mkRight n s g : lenwf n (mkRight s g) <-> lenwf n g.
@@ -206,6 +207,7 @@ Proof.
     assert (L1 : length (firstn k x) = k) by (rewrite firstn_length; lia).
     assert (L2 : length (skipn k x) = (n - k)%nat) by (rewrite skipn_length; lia).
     rewrite (IHf k _ _ _ _ Hwf1 L1 E1), (IHg (n - k)%nat _ _ _ _ Hwf2 L2 E2). lia.
+  - (* FPair *) destruct Hwf as [Hpl _]. exact (Hpl w pb sigma x r Lx Hp).
 Qed.
 
 (* ------------------------------------------- transparency of the constructors *)
